@@ -382,6 +382,26 @@ def save_replay(prop, name, files, meta):
     return d
 
 
+def code_panic(stderr):
+    """True if the process died in a panic / runtime fatal error whose stack runs through the code under test.
+    A panic of the driver itself (no frame of github.com/anacrolix/dht/v2 in the panicking goroutine) is a
+    problem of the machinery: inconclusive, never a verdict."""
+    se = stderr or ""
+    if "fatal error:" in se:
+        return "github.com/anacrolix/dht/v2" in se[se.index("fatal error:"):]
+    if "panic:" not in se:
+        return False
+    tail = se[se.index("panic:"):]
+    m = re.search(r"\ngoroutine \d+ \[", tail)
+    if not m:
+        return "github.com/anacrolix/dht/v2" in tail
+    block = tail[m.start() + 1:]
+    nxt = re.search(r"\n\ngoroutine \d+ \[", block)
+    if nxt:
+        block = block[:nxt.start()]
+    return "github.com/anacrolix/dht/v2" in block
+
+
 def tlapm(module, timeout=600):
     """Runs the TLA+ proof system on spec/<module>.tla in a scratch copy. Returns (all_proved, obligations, wall, output)."""
     wd = scratch("verif-tlapm-")
